@@ -146,6 +146,11 @@ def p_clear_at(pos, variant):
         body = [m("open_run"), m("checkpoint"), m("null"), m("null"), m("null"), m("null")]
         body.insert(min(pos, len(body)), m("clear_checkpoint"))
         return seq(["tryexc", seq(*body), seq(m("null"))], m("null"), m("close_run"))
+    if variant == "pausefin":
+        # a pause MESSAGE inside try/finally: the clean-up (three messages) must run after FailedPause (defect C10-a)
+        body = [m("open_run"), m("checkpoint"), m("null"), m("pause"), m("null")]
+        body.insert(min(pos, len(body)), m("clear_checkpoint"))
+        return ["tryfin", seq(*body), seq(m("null"), m("null"), m("close_run"))]
     body = [m("open_run"), m("checkpoint"), m("null"), m("pause"), m("null"), m("checkpoint"), m("null"), m("close_run")]
     body.insert(min(pos, len(body)), m("clear_checkpoint"))
     return seq(*body)
@@ -153,7 +158,7 @@ def p_clear_at(pos, variant):
 
 def c10_cases(rng, tier):
     out = []
-    for variant, npos in (("fin", 9), ("nested", 10), ("catch", 6), ("pausemsg", 6)):
+    for variant, npos in (("fin", 9), ("nested", 10), ("catch", 6), ("pausemsg", 6), ("pausefin", 4)):
         for pos in range(1, npos + 1):
             if tier != "thorough" and variant in ("fin", "nested") and pos % 2 == 0:
                 continue
